@@ -707,6 +707,30 @@ func runC12(w *World) *Result {
 				visit(s.Body, guards, negated)
 			case *ast.RangeStmt:
 				visit(s.Body, guards, negated)
+			case *ast.SwitchStmt:
+				// switch on the token type: a clause is entered under "one of its values", the default
+				// clause under "none of the values of the other clauses"
+				var all []ast.Expr
+				for _, cl := range s.Body.List {
+					if cc, ok := cl.(*ast.CaseClause); ok {
+						all = append(all, cc.List...)
+					}
+				}
+				for _, cl := range s.Body.List {
+					cc, ok := cl.(*ast.CaseClause)
+					if !ok {
+						continue
+					}
+					g := &ast.CallExpr{Fun: ast.NewIdent("oneOf"), Args: cc.List}
+					neg := false
+					if cc.List == nil && s.Tag != nil {
+						g = &ast.CallExpr{Fun: ast.NewIdent("oneOf"), Args: all}
+						neg = true
+					}
+					for _, st := range cc.Body {
+						visit(st, append(append([]ast.Expr{}, guards...), g), append(append([]bool{}, negated...), neg))
+					}
+				}
 			case *ast.AssignStmt:
 				for _, rhs := range s.Rhs {
 					call, ok := rhs.(*ast.CallExpr)
